@@ -124,6 +124,7 @@ class Summaries:
         self.MF = {p: False for p in self.routines}
         self.pushers = set()
         self.flushers = set()
+        self.CB = {}           # routine -> {block of a callback call: (may trivia of its own be pending there, flushed on every path before)}
         self._fix_sinks()
         self._fix_dirty()
 
@@ -263,6 +264,8 @@ class Summaries:
             succ = []
             if k == "call":
                 c = Call(f, bb, t)
+                if self.kind(f, c) == "callback":
+                    self.CB.setdefault(f.path, {})[bb] = (bool(items), flushed)
                 items = self.call_items(f, c, items)
                 kd = self.kind(f, c)
                 flushed = flushed or kd == "flush" or (kd == "routine" and self.MF[c.path])
@@ -333,6 +336,121 @@ class Summaries:
                     self.flushers.add(p)
 
 
+def runs_callbacks_on_empty_queue(S, path):
+    """Every callback call of the routine is preceded, on every path, by a flush of the pending trivia with no push of
+    its own in between (`let later = mem::take(&mut self.pending_trivia); f(self); self.pending_trivia.extend(later)`)."""
+    cb = S.CB.get(path)
+    return bool(cb) and all(fl and not dirty for dirty, fl in cb.values())
+
+
+def closure_origins(S, F, f):
+    """For a closure of a parser routine: (upvar origins, names of the routines it is handed to that do NOT run it on an
+    empty queue).  An upvar that holds a green taken by the enclosing routine is an origin of the closure body."""
+    if f.kind != "Closure" or not f.body:
+        return [], set()
+    ups = {}
+    for i, j, st in f.stmts():
+        if st[0] != "a" or st[2][0] != "use":
+            continue
+        pl = op_place(st[2][1])
+        if pl is None or place_local(pl) != 1:
+            continue
+        flds = [e for e in place_proj(pl) if isinstance(e, list) and e[0] == "f"]
+        if len(flds) != 1 or len(place_proj(pl)) != 1:
+            continue
+        dl = place_local(st[1])
+        if gf.mentions_green(f.local_ty(dl)):
+            ups.setdefault(flds[0][1], f.local_ty(dl))
+    origins = [gf.Origin(f, None, k, ty, param=1) for k, ty in sorted(ups.items())]
+    # where is the closure handed over?
+    root = F.fns.get(f.root)
+    bad = set()
+    found = False
+    if root is not None and root.body:
+        for g in [root] + F.closures_of(root):
+            if not g.body:
+                continue
+            for i, j, st in g.stmts():
+                if st[0] == "a" and st[2][0] == "agg" and st[2][1] == "closure" and st[2][2] == f.path:
+                    cl = place_local(st[1])
+                    for c in g.calls():
+                        if any(op_local(a) == cl for a in c.args):
+                            found = True
+                            if not (c.path in S.routines and runs_callbacks_on_empty_queue(S, c.path)):
+                                bad.add(last_seg(c.path) or "a call")
+    if not found:
+        bad.add("an unknown caller")
+    return origins, bad
+
+
+def capture_ages(S, F, f, up_origins):
+    """{upvar index: block of the call in the enclosing routine that produced the captured green} - which of two captured
+    nodes was taken first is decided there."""
+    root = F.fns.get(f.root)
+    ages = {}
+    if root is None or not root.body:
+        return ages, None
+    sites = []
+    for bi, blk in enumerate(root.blocks):
+        for si, st in enumerate(blk["s"]):
+            if st[0] == "a" and st[2][0] == "agg" and st[2][1] == "closure" and st[2][2] == f.path:
+                sites.append((bi, si, st))
+    if not sites:
+        return ages, None
+    for o in gf.origins(root):
+        c = o.call
+        S0 = gf.State()
+        S0.taint[place_local(c.dest)] = o.comp
+        stack = [(c.target, S0)]
+        seen = set()
+        n = 0
+        while stack:
+            bb, St = stack.pop()
+            key = (bb, St.freeze())
+            if key in seen or bb is None:
+                continue
+            seen.add(key)
+            n += 1
+            if n > 40000:
+                break
+            St = St.copy()
+            blk = root.blocks[bb]
+            dead = False
+            for si, st in enumerate(blk["s"]):
+                for (sb, ssi, sst) in sites:
+                    if sb == bb and ssi == si:
+                        for k, op in enumerate(sst[2][3]):
+                            pl = op_place(op)
+                            if pl is None:
+                                continue
+                            if St.holds(pl) or (not place_proj(pl) and place_local(pl) in St.refs):
+                                ages.setdefault(k, c.bb)
+                if gf._stmt(root, st, St) == gf.SINK:
+                    dead = True
+                    break
+            if dead or (not St.taint and not St.refs):
+                continue
+            t = blk["t"]
+            k = t[0]
+            if k == "call":
+                cc = Call(root, bb, t)
+                if gf._call(root, cc, St, None) == gf.SINK:
+                    continue
+                if cc.target is not None and cc.target != c.bb:
+                    stack.append((cc.target, St))
+            elif k == "switch":
+                for s_, ns in gf._switch_succ(root, t, St):
+                    if ns is not None:
+                        stack.append((s_, ns.copy()))
+            elif k == "goto":
+                stack.append((t[1], St))
+            elif k in ("drop", "assert"):
+                tgt = t[2] if k == "drop" else t[5]
+                if isinstance(tgt, int):
+                    stack.append((tgt, St))
+    return ages, root
+
+
 def sink_params_as_origins(S, f):
     out = []
     have = {o.param for o in gf.param_origins(f)}
@@ -348,7 +466,7 @@ def _origin_bb(o):
     return None if o.call is None else o.call.bb
 
 
-def skip_events(S, f, origin, older, max_states=60000):
+def skip_events(S, f, origin, older, max_states=60000, entry_dirt=frozenset()):
     """Follow the green of `origin` to the calls that hand it to a sink or keep it.
 
     older(call bb, arg position) -> True when the value passed there was taken before `origin` (its own origins
@@ -362,7 +480,7 @@ def skip_events(S, f, origin, older, max_states=60000):
     S0 = gf.State()
     if c is None:
         S0.taint[origin.param] = origin.comp
-        stack = [(0, S0, (0,), frozenset(), None)]
+        stack = [(0, S0, (0,), frozenset(entry_dirt), None)]
     else:
         S0.taint[place_local(c.dest)] = origin.comp
         d0 = S.call_items(f, c, frozenset(), sink_dirt=False)
@@ -503,9 +621,14 @@ def sink_reach(S, f, origins):
     return out
 
 
-def analyse(S, f):
+def analyse(S, f, F=None):
     """[(origin, skips, keeps)] for the origins of f that reach a sink or are kept after an older skip."""
     origins = gf.origins(f) + sink_params_as_origins(S, f)
+    up_origins, bad_callers = closure_origins(S, F, f) if F is not None else ([], set())
+    origins = origins + up_origins
+    entry_dirt = {o: frozenset(("trivia pending when %s runs the closure" % b, None, None) for b in bad_callers) for o in up_origins}
+    ages, root = capture_ages(S, F, f, up_origins) if up_origins else ({}, None)
+    up_ids = {id(o): o.comp for o in up_origins}
     if not origins:
         return []
     if not any(S.sink_args(f, c) for c in f.calls()):
@@ -521,6 +644,13 @@ def analyse(S, f):
                 return None
             if any(x is o for x in srcs):
                 return None
+            if id(o) in up_ids and all(id(x) in up_ids for x in srcs) and root is not None:
+                # both are captured by the closure: the enclosing routine took them in some order
+                a_o = ages.get(up_ids[id(o)])
+                a_x = [ages.get(up_ids[id(x)]) for x in srcs]
+                if a_o is None or None in a_x:
+                    return None
+                return all(xb != a_o and root.dominates(xb, a_o) for xb in a_x)
             if ob is None:
                 return False        # nothing is older than a parameter
             for x in srcs:
@@ -530,7 +660,7 @@ def analyse(S, f):
                 if xb == ob or not f.dominates(xb, ob):
                     return False
             return True
-        skips, keeps = skip_events(S, f, o, older)
+        skips, keeps = skip_events(S, f, o, older, entry_dirt=entry_dirt.get(o, frozenset()))
         if skips or keeps:
             res.append((o, skips, keeps))
     return res
